@@ -14,7 +14,7 @@ LEVEL_TEXT = ('fault enumeration: for every explored run every I/O event (open/w
               'and chunk configurations. Right level because the property quantifies over crash points and configurations.')
 LEVEL_NOTE = ('trusted: SimFile proxy = the OS (process death, page cache survives; no power loss), strict framing parser '
               'sim/rp66.py; bounds: files <= ~64 kB, <= 4 configurations per specification')
-TIERS = {'quick': {'cases': 2400, 'wall': 40}, 'thorough': {'cases': 400000, 'wall': 840}}
+TIERS = {'quick': {'cases': 1800, 'wall': 40}, 'thorough': {'cases': 400000, 'wall': 840}}
 RULE = ('case = seeded valid specification (1-3 logical files, frames, no-format data; record length biased to 32..256) '
         'written under 3-4 (input chunk, output chunk, prior content) configurations, each in its own fork, plus torn '
         'writes and a real crash+restart; every open/write/close event of every write is a checked crash point. '
